@@ -463,6 +463,14 @@ func (x *exec) modelOp(op *Op) (res taref.Value, thr *taref.Throw, ok bool) {
 			return w.NewFromBuffer(t, b, argAt(args, 0), argAt(args, 1))
 		case "of":
 			return w.Of(t, args)
+		case "ofC":
+			return w.OfCtor(op.N, v, args)
+		case "fromC":
+			var mapper *taref.Callback
+			if len(args) > 1 {
+				mapper = args[1].(*taref.Callback)
+			}
+			return w.FromCtor(op.N, v, args[0].(*taref.Array), mapper)
 		case "fromHex":
 			return w.FromHexStatic(argAt(args, 0))
 		case "setCtor":
@@ -560,6 +568,12 @@ func (x *exec) step(i int, op *Op) {
 	exp, thr, ok := x.modelOp(op)
 	if !ok {
 		x.skipped++
+		return
+	}
+	if exclHugeNumbers && x.w.HugeIntConversions > 0 {
+		// outside the declared domain while the C05 finding (toInt32 & co for |x| >= 2^63) is open: buffer contents reinterpreted
+		// as a float and converted to an integer element type
+		x.inconclusive = "open-C05-finding-huge-int-conversion"
 		return
 	}
 	x.executed++
@@ -850,9 +864,13 @@ func (x *exec) compareWorld(i int, kind, src string) {
 	arr = o.Val.(*goja.Object)
 	for _, id := range sortedKeys(x.views) {
 		v := x.w.Views[id]
-		l := arr.Get(strconv.Itoa(3 * id)).ToInteger()
-		bo := arr.Get(strconv.Itoa(3*id + 1)).ToInteger()
-		bl := arr.Get(strconv.Itoa(3*id + 2)).ToInteger()
+		l := arr.Get(strconv.Itoa(4 * id)).ToInteger()
+		bo := arr.Get(strconv.Itoa(4*id + 1)).ToInteger()
+		bl := arr.Get(strconv.Itoa(4*id + 2)).ToInteger()
+		if bi := arr.Get(strconv.Itoa(4*id + 3)).ToInteger(); int(bi) != v.Buf.ID {
+			x.fail("geometry", fmt.Sprintf("step %d `%s`: view %d .buffer is B[%d], expected B[%d]", i, src, id, bi, v.Buf.ID), i, kind)
+			return
+		}
 		el, ebo := int64(v.Length), int64(v.ByteOffset)
 		if v.Buf.Detached {
 			el, ebo = 0, 0
